@@ -21,16 +21,22 @@ INTLITS = [0]
 
 
 def subst(tokens, lit_tokens):
-    out, k = [], 0
+    """the token stream with every placeholder replaced by the literal it designates: the k-th positional mark (P0)
+    designates the k-th value, a numbered mark $n (Pn) the n-th value - whatever its position; None if a mark
+    designates no value or some value is designated by no mark"""
+    out, k, used = [], 0, set()
     for t in tokens:
         if t.startswith("P"):
-            if k >= len(lit_tokens):
+            n = int(t[1:])
+            idx = k if n == 0 else n - 1
+            if idx >= len(lit_tokens):
                 return None
-            out.extend(lit_tokens[k])
+            out.extend(lit_tokens[idx])
+            used.add(idx)
             k += 1
         else:
             out.append(t)
-    return out if k == len(lit_tokens) else None
+    return out if used == set(range(len(lit_tokens))) else None
 
 
 def batch_oracle(ctx, lines, impl):
@@ -90,7 +96,7 @@ def batch_oracle(ctx, lines, impl):
         want = subst(tp.split(" ")[:-1], lt)
         checked += 1
         if want is None:
-            verdicts[i] = "number of placeholders and of values differ"
+            verdicts[i] = "the placeholders do not designate every bound value exactly (count or numbering)"
         elif want != ti.split(" ")[:-1]:
             verdicts[i] = "inline form is not the parameterised form with literals substituted (engine token streams differ)"
     qcommon.text_level_premise(ctx, lines, impl, "I")
